@@ -97,7 +97,8 @@ fn run_cli(cli: &str, logic: &str, data: &str, form: usize) -> (String, i64, Str
     // than a pipe buffer must neither block this process nor the command.  Long stdin texts are
     // written in two pieces with a pause, as a slow producer at the other end of a pipe would.
     let mut stdin = child.stdin.take().unwrap();
-    let payload: Vec<u8> = if form != 0 { data.as_bytes().to_vec() } else { Vec::new() };
+    // (a rule text of "-" is not a request to read the rule from stdin: a rule is waiting there to tempt it)
+    let payload: Vec<u8> = if form != 0 { data.as_bytes().to_vec() } else if logic.trim() == "-" { b"{\"var\":\"a\"}".to_vec() } else { Vec::new() };
     let writer = std::thread::spawn(move || {
         if payload.len() > 1 && payload.len() % 3 == 0 {
             let mid = payload.len() / 2;
@@ -184,6 +185,7 @@ pub fn gen_c18(rng: &mut Rng, count: usize, _thorough: bool) -> Vec<Emit> {
         ("{\"or\":[{\"var\":\"a\"},{\"log\":\"LEAK\"}]}", "{\"a\":1}"), ("", "null"), ("null", ""), ("{\"var\":\"\"}", "1e400"), ("1e-400", "null"),
         ("{\"var\":\"\"}", "9.630000000000007e+246"), ("{\"var\":\"\"}", "\"\\ud83d\\ude00\""), ("{\"var\":\"\"}", "\"\\ud83d\""), ("{\"cat\":[\"é\",{\"var\":\"\"}]}", "\"日本\""),
         ("{\"var\":\"\"}", "18446744073709551615"), ("{\"var\":\"\"}", "18446744073709551616"), ("{\"var\":\"\"}", "-9223372036854775809"),
+        ("-", "{\"a\":1}"), (" - ", "{\"a\":1}"), ("{\"var\":\"k\"}", "{\"k\":\"a\u{feff}b\"}"), ("{\"cat\":[\"x\",\"\u{feff}\",\"y\"]}", "null"), ("{\"var\":\"k\"}", "\u{feff}{\"k\":1}"),
         ("{\"var\":\"\"}", "1\n2"), ("{\"var\":\"\"}", "tr\nue"), ("{\"cat\":[{\"var\":\"\"},\"!\"]}", "\"a\nb\""), ("{\"var\":\"\"}", "1\r\n2"), ("{\"var\":\"\"}", "[1,\n2]"),
         ("{\"var\":\"\"}", "{\"b\":1,\"a\":2,\"a\":3}"), ("{\"var\":\"\"}", "[1,2,]"), ("{\"var\":\"\"}", "01"), ("{\"var\":\"\"}", "1."), ("{\"var\":\"\"}", ".5"),
     ];
@@ -293,6 +295,7 @@ pub fn gen_c19_cases(rng: &mut Rng, count: usize, out_path: &str) {
     for (vpy, dpy) in [
         ("{'var': 'x'}", "{1: 0, 'x': 5}"), ("{'var': 'null'}", "{None: 'n', 'k': 1}"), ("{'var': 'true'}", "{True: 1, 'a': 2}"), ("{'var': '1.5'}", "{1.5: 'f', 'b': 0}"),
         ("{'map': [{'var': 'rows'}, {'var': '7'}]}", "{'rows': [{7: 'seven', 'id': 1}]}"), ("{'merge': [{'var': ''}, (1, 2)]}", "(3, (4,))"), ("{'a': 1, 2: 'b'}", "None"),
+        ("{'var': 'k'}", "{'k': '\\ud83d\\ude00'}"), ("{'cat': ['\\ud83d\\ude00', {'var': ''}]}", "'\\ud83d\\ude00!'"), ("{'var': '\\ud83d\\ude00'}", "{'\\ud83d\\ude00': 1}"),
         ("{'var': ('x',)}", "{'x': (1, 2)}"), ("{'in': [2, (1, 2, 3)]}", "None"), ("{'cat': [{'var': '0'}, {'var': '-1'}]}", "{0: 'zero', -1: 'minus', 'z': 1}"),
     ] {
         for ser in ["default", "compact"] {
